@@ -222,7 +222,7 @@ Qed.
    4 observers -- and a per-instance (2,4,3,3) array is neither counted nor are the single observers tiled to it *)
 Definition mesh3_table : list (string * Z) := [("polarization", 2); ("mesh", 3)]%string.
 
-Theorem mesh_rank3_refuted :
+Theorem mesh_rank3_mistiles :
   dict_level2 dict_base_ndim dict_default_ndim mesh3_table
               [("polarization"%string, PArr [3]); ("mesh"%string, PArr [4; 3; 3])] (PArr [2; 3]) (PArr [3]) (PArr [4])
   = DBad
